@@ -26,6 +26,14 @@ pub struct MsgK<const K: u32> {
     pub run: u64,
 }
 
+/// request whose handler spawns a task and returns its JoinHandle (ask_join)
+pub struct JoinK<const K: u32> {
+    pub m: u64,
+    pub delay_us: u64,
+    pub panic: bool,
+    pub run: u64,
+}
+
 #[derive(Clone)]
 pub struct TCfg {
     pub run: u64,
@@ -145,6 +153,29 @@ impl<const K: u32> Message<MsgK<K>> for T {
     }
 }
 
+impl<const K: u32> Message<JoinK<K>> for T {
+    type Reply = tokio::task::JoinHandle<Val>;
+    async fn handle(&mut self, msg: JoinK<K>, _r: &ActorRef<Self>) -> tokio::task::JoinHandle<Val> {
+        self.nh += 1;
+        emit(self.cfg.run, json!({"e": "HEnter", "a": self.cfg.name, "hook": "handler", "m": msg.m, "killed": false, "n": self.nh}));
+        // the value the spawned task will produce is fixed here, so the trace can say what ask_join must return
+        let v = msg.m * 100 + self.nh;
+        let (d, p) = (msg.delay_us, msg.panic);
+        let jh = tokio::spawn(async move {
+            if d > 0 {
+                tokio::time::sleep(Duration::from_micros(d)).await;
+            }
+            if p {
+                panic!("scripted");
+            }
+            Val(v)
+        });
+        emit(self.cfg.run, json!({"e": "HExit", "a": self.cfg.name, "hook": "handler", "m": msg.m, "out": "ok", "v": v}));
+        self.jl.push("h".into());
+        jh
+    }
+}
+
 fn res_of<X>(r: &Result<X, Error>) -> (&'static str, bool) {
     match r {
         Ok(_) => ("ok", false),
@@ -153,6 +184,7 @@ fn res_of<X>(r: &Result<X, Error>) -> (&'static str, bool) {
                 Error::Send { .. } => "send",
                 Error::Timeout { .. } => "timeout",
                 Error::Receive { .. } => "recv",
+                Error::Join { .. } => "join",
                 _ => "other",
             },
             e.is_retryable(),
@@ -210,6 +242,7 @@ fn model_kind(api: &str, d: u64) -> &'static str {
         }
         "tell_blocking" => "tell",
         "ask_blocking" => "ask",
+        "ask_join" | "ask_join_panic" => "askJ",
         "stop" => "stop",
         "kill" => "kill",
         _ => "other",
@@ -238,14 +271,15 @@ macro_rules! with_k {
 fn begin(ctx: &RunCtx, own: &str, spec: &OpSpec, slot: u32) -> (u64, u64) {
     let op = ctx.next_op.fetch_add(1, Ordering::SeqCst);
     let kind = model_kind(spec.api, spec.d);
-    let m = if matches!(kind, "tell" | "ask" | "tellT" | "askT") { ctx.next_m.fetch_add(1, Ordering::SeqCst) } else { 0 };
+    let m = if matches!(kind, "tell" | "ask" | "tellT" | "askT" | "askJ") { ctx.next_m.fetch_add(1, Ordering::SeqCst) } else { 0 };
     if kind != "kill" {
         ctx.pending.lock().unwrap().insert(op);
     }
     // the deprecated aliases ignore their timeout: for the monitors they are untimed operations
-    let d = if matches!(spec.api, "tell_blocking" | "ask_blocking") { 0 } else { spec.d };
+    let d = if matches!(spec.api, "tell_blocking" | "ask_blocking" | "ask_join" | "ask_join_panic") { 0 } else { spec.d };
     emit(ctx.run, json!({"e": "OpStart", "op": op, "own": own, "kind": kind, "api": spec.api, "h": 0, "a": ctx.target,
-                         "m": m, "d": d, "now": ctx.now_floor(), "erased": spec.erased, "slot": slot}));
+                         "m": m, "d": d, "now": ctx.now_floor(), "erased": spec.erased, "slot": slot,
+                         "jp": spec.api == "ask_join_panic"}));
     (op, m)
 }
 
@@ -307,6 +341,12 @@ async fn do_async<const K: u32>(ctx: Arc<RunCtx>, r: ActorRef<T>, own: String, s
         }
         "blocking_ask_in_rt" => {
             let x = r.blocking_ask(msg, Some(dur));
+            let (s, rt) = res_of(&x);
+            (s, x.map(|v| v.0).unwrap_or(0), rt)
+        }
+        "ask_join" | "ask_join_panic" => {
+            let jm = JoinK::<K> { m, delay_us: spec.d * 100, panic: spec.api == "ask_join_panic", run: ctx.run };
+            let x = r.ask_join(jm).await;
             let (s, rt) = res_of(&x);
             (s, x.map(|v| v.0).unwrap_or(0), rt)
         }
@@ -395,7 +435,8 @@ fn joined_event(run: u64, a: &str, r: Result<ActorResult<T>, tokio::task::JoinEr
     emit(run, ev);
 }
 
-const ASYNC_APIS: [&str; 8] = ["tell", "ask", "tell_with_timeout", "ask_with_timeout", "tell", "ask", "blocking_tell_in_rt", "blocking_ask_in_rt"];
+const ASYNC_APIS: [&str; 11] = ["tell", "ask", "tell_with_timeout", "ask_with_timeout", "tell", "ask", "blocking_tell_in_rt", "blocking_ask_in_rt",
+    "ask_join", "ask_join", "ask_join_panic"];
 const BLOCK_APIS: [&str; 6] = ["blocking_tell", "blocking_ask", "blocking_tell", "blocking_ask", "tell_blocking", "ask_blocking"];
 
 /// One seeded scenario: an actor, a few async clients, a few blocking threads, one controller
@@ -518,8 +559,8 @@ async fn scenario(run: u64, seed: u64, feats: Value, mix: &str) -> Vec<Value> {
 
 /// maps "....MsgK<17>" to slot 17
 pub fn slot_of_type(name: &str) -> Option<u32> {
-    let i = name.rfind("MsgK<")?;
-    name[i + 5..].trim_end_matches('>').parse().ok()
+    let i = name.rfind("MsgK<").map(|i| i + 5).or_else(|| name.rfind("JoinK<").map(|i| i + 6))?;
+    name[i..].trim_end_matches('>').parse().ok()
 }
 
 pub fn run_stress(iters: u64, seed: u64, par: usize, mix: &'static str, out: &str, feats: Value) -> (u64, u64) {
